@@ -85,6 +85,14 @@ oracle, `linear_sum_assignment` and the sum, the two `matching=True` extractions
 recursion (the `while` on a fuel), the external solvers as parameters; proved equal to reviewed Lean text of the same shape and
 through it to the hand-written models (Lemmas/SrcBridgeMatching.lean, SrcLibMatching.lean).  It also blanks, in the
 `srcSkeleton(After)_aug_entry` pins of the statement-level targets `bottleneck` / `wasserstein`, what it translates.
+
+LANDSCAPE ENGINE (py2lean_landscape.py; keys plexact, plgrid, plnorm, plvec, pltransform of FILES; `pre_build` of C09, C10, C08, C18).  The
+operators of `PersLandscapeExact` / `PersLandscapeApprox` with the guards of base.py behind `super()`, `auxiliary.union_crit_pairs`,
+`tools.snap_pl / lc_approx / average_approx / vectorize`, the `p_norm` / `sup_norm` entry points with `_p_norm` around its segment region,
+and `PersistenceLandscaper.transform`, statement by statement: landscape objects as records, the lazy `compute_landscape()` a library
+operation with the computation a parameter, loops as `foldl` / `foldlM` of their own definitions; proved equal to reviewed Lean text and
+through it to the models of Model/PLArith.lean, PNorm.lean, Approx.lean, Transformers.lean (Lemmas/SrcBridgeLandscape*.lean,
+SrcLibLandscape.lean).  Its files import the generated files of the callees they use (SrcPLArith.lean, SrcPNorm.lean).
 """
 import ast, os, re
 from fractions import Fraction
